@@ -175,6 +175,7 @@ def run(ctx):
     lines, expect, meta = [], [], []
     spec_lines, spec_meta = [], []
     seen_bytes = {}
+    rng = ctx.rng
     for bits, t, layout in gen_cases(ctx):
         try:
             p = PackedTensor.pack(t, bits)
@@ -197,6 +198,23 @@ def run(ctx):
             lines.append(f"unpack {mk} {bits} {tline(p._data)}")
             expect.append(tline(routes[kind]))
             meta.append(("unpack-" + kind, bits, list(t.shape), layout))
+        # results of different calls are different tensors: a second tensor of the same shape goes through the same calls
+        # while the results of the first are still alive
+        snap = {"unpack()": tline(u), **{k: tline(v) for k, v in routes.items()}}
+        t2 = (t + 1 + rand_uint(rng, list(t.shape), bits - 1 if bits > 1 else 1)) % (2 ** bits) if t.numel() else t
+        try:
+            p2 = PackedTensor.pack(t2.to(torch.uint8), bits)
+            u2 = p2.unpack()
+            routes2, _ = all_routes(p2._data, bits)
+        except Exception as e:  # noqa
+            ctx.spec_failures.append((f"C04:pack-or-unpack-raises:{exc_name(e)}", {"bits": bits, "shape": list(t.shape), "layout": layout, "message": str(e)[:200]}))
+            continue
+        now = {"unpack()": tline(u), **{k: tline(v) for k, v in routes.items()}}
+        changed = [k for k in snap if snap[k] != now[k]]
+        if changed:
+            ctx.spec_failures.append(("C04:result-changed-by-a-later-call", {"bits": bits, "shape": list(t.shape), "layout": layout, "results": changed}))
+        if u2.shape != t2.shape or not torch.equal(u2, t2.to(torch.uint8)):
+            ctx.spec_failures.append(("C04:lossy", {"bits": bits, "shape": list(t.shape), "layout": layout, "note": "second tensor of the same shape"}))
         spec_lines.append(f"spec04 {bits} {tline(t)} {tline(p._data)} {tline(u)} " + " ".join(tline(routes[k]) for k in routes))
         spec_meta.append((bits, list(t.shape), layout))
         ctx.evaluations += 1
